@@ -25,6 +25,7 @@ SYMBOLS = {
     'a': (TNS, 'a'), 'b': (TNS, 'b'), 'c': (TNS, 'c'),
     'h': (TNS, 'h'), 'm': (TNS, 'm'), 'k': (TNS, 'k'),   # head, member, abstract-able member
     'j': (TNS, 'j'),                                       # member of k's group: substitutes h transitively
+    'g': (TNS, 'g'),                                       # a second head (XSD 1.1: m is a member of h's and of g's group)
     'x': (N1, 'x'),                                        # foreign namespace
     'n': ('', 'n'),                                        # no namespace
     'u': (TNS, 'u'),                                       # target namespace, never declared
@@ -102,6 +103,9 @@ def leaf_symbols(node, subst='plain'):
         return {node[1]}
     if node[0] == 'h':
         return head_members(subst)
+    if node[0] == 'r':
+        # reference to the global element named before `~`; the symbols it stands for follow it
+        return set(node[1].split('~')[1].split(','))
     if node[0] == 'w':
         return {s for s in SYMBOLS if wildcard_admits(node[1], s)}
     raise ValueError(node)
@@ -146,6 +150,8 @@ def text(node):
         return node[1] + ':' + node[2] + occ_text(*occ(node))
     if k == 'h':
         return 'H' + occ_text(*occ(node))
+    if k == 'r':
+        return 'ref:' + node[1].split('~')[0] + occ_text(*occ(node))
     if k == 'w':
         return 'any:' + node[1] + occ_text(*occ(node))
     name = {'s': 'seq', 'c': 'cho', 'a': 'all'}[k]
@@ -179,6 +185,8 @@ def alphabet(node, cfg):
             syms |= leaf_symbols(lf, cfg.get('subst', 'plain'))
             if lf[0] == 'h':
                 syms |= {'h', 'm', 'k', 'j'}
+            if lf[0] == 'r':
+                syms |= {lf[1].split('~')[0]}
     if cfg.get('open'):
         for s in ('x', 'n', 'u'):
             if wildcard_admits(cfg['open'][1], s):
@@ -221,6 +229,8 @@ def render_particle(node, cfg, indent='    ', types=None, named=None):
         return f'{indent}<xs:element name="{node[1]}" type="xs:{node[2]}"{occ_attrs(*occ(node))}/>\n'
     if k == 'h':
         return f'{indent}<xs:element ref="t:h"{occ_attrs(*occ(node))}/>\n'
+    if k == 'r':
+        return f'{indent}<xs:element ref="t:{node[1].split("~")[0]}"{occ_attrs(*occ(node))}/>\n'
     if k == 'w':
         pc = cfg.get('pc', 'skip')
         sib = ' notQName="##definedSibling"' if '~' in node[1] else ''
@@ -256,6 +266,13 @@ def subst_decls(cfg):
     habs = ' abstract="true"' if subst == 'head_abstract' else ''
     kabs = ' abstract="true"' if subst == 'member_abstract' else ''
     blk = ' block="substitution"' if subst == 'blocked' else ''
+    if cfg.get('two_heads'):
+        # XSD 1.1: m belongs to the substitution groups of two unrelated heads
+        return (f'  <xs:element name="h" type="xs:string"{habs}{blk}/>\n'
+                f'  <xs:element name="g" type="xs:string"/>\n'
+                f'  <xs:element name="m" type="xs:string" substitutionGroup="t:h t:g"/>\n'
+                f'  <xs:element name="k" type="xs:string" substitutionGroup="t:h"{kabs}/>\n'
+                f'  <xs:element name="j" type="xs:string" substitutionGroup="t:k"/>\n')
     return (f'  <xs:element name="h" type="xs:string"{habs}{blk}/>\n'
             f'  <xs:element name="m" type="xs:string" substitutionGroup="t:h"/>\n'
             f'  <xs:element name="k" type="xs:string" substitutionGroup="t:h"{kabs}/>\n'
